@@ -29,3 +29,14 @@ Print Assumptions C01_typed_preserved.
 Theorem C01_refuted_mutual_interfaces : ~ C01_statement.
 Proof. exact C01_refuted_mutual_ifaces. Qed.
 Print Assumptions C01_refuted_mutual_interfaces.
+
+(* over histories of Calls and Redefines (one well-formed function list for
+   the whole history, the per-call hypotheses of theorem C01 for every Call):
+   every execution anywhere in the history receives supplied or previously
+   produced, label-compatible, assignable values -- memoized results hand out
+   values produced earlier in the history *)
+From ArgMapper Require Import HistoryStatements.
+From ArgMapper.proofs Require Import C01Hist.
+Theorem C01_history : C01_history_statement.
+Proof. exact C01_history_proof. Qed.
+Print Assumptions C01_history.
